@@ -64,6 +64,7 @@ func runC18(p *core.Prog, r *core.Result) {
 	r.Decided = []string{
 		"R18.1 typestate of one evaluation on every path: up-to-date | evaluating·succeeded | evaluating·failed | failed | (no event only on the return taken because a dependency failed); the body runs only between evaluating and the terminal event; succeeded never on an error edge",
 		"R18.2 target events are emitted only by (*runTarget).Evaluate; run-done exactly once, after the runner returned, with the error that Run returns",
+		"R18.6 the partial-line buffer never retains (a slice of) the caller's chunk: it only grows by copying appends",
 		"R18.5 lineWriter.Write conserves bytes: the unconsumed chunk is cut only at its first newline (c[:nl], c[nl+1:]); the rest becomes the next cursor; per newline exactly one line is delivered - c[:nl] alone only where the buffer is known empty, otherwise the buffer after c[:nl] was appended; without a newline the whole rest is buffered",
 		"R18.4 whenever a lineWriter method hands its buffered partial line to Events.Print it resets the buffer before returning (no byte is delivered twice)",
 		"R18.3 the target's line writer is flushed by a defer registered first thing in (*function).evaluate; Flush and newThread have no other callers",
@@ -537,6 +538,33 @@ func runC18(p *core.Prog, r *core.Result) {
 
 	// ---- R18.5 chunk conservation in lineWriter.Write
 	checkLineReassembly(p, r)
+
+	// ---- R18.6 the buffer never retains the caller's slice
+	nStore := 0
+	for _, fn := range p.ModuleFuncs() {
+		if fn.Pkg == nil || fn.Pkg.Pkg.Path() != pkgRoot {
+			continue
+		}
+		core.Instrs(fn, func(in ssa.Instruction) {
+			v, is := bufRetains(in)
+			if !is {
+				return
+			}
+			nStore++
+			construct := fmt.Sprintf("%s#buffer-store-%d", fname(fn), nStore)
+			// a freshly allocated copy is fine; anything derived from a parameter (the chunk being written) is not
+			aliases := core.DependsOn(v, core.SliceOpts{}, func(x ssa.Value) bool {
+				prm, ok := x.(*ssa.Parameter)
+				if !ok {
+					return false
+				}
+				_, isSlice := prm.Type().Underlying().(*types.Slice)
+				return isSlice
+			})
+			r.Check(!aliases, "R18.6", construct, p.InstrPos(in), "the buffer is replaced by a value that does not alias a caller's slice", "the partial line is kept as a slice of the chunk handed to Write instead of a copy: writers such as io.Copy reuse their buffer, so the retained bytes are overwritten before the line is completed and corrupted lines are delivered")
+		})
+	}
+	r.Analysed["line_buffer_replacing_stores"] = nStore
 }
 
 // checkLineReassembly implements R18.5: the structure that makes lineWriter.Write deliver every byte exactly once,
@@ -628,13 +656,6 @@ func checkLineReassembly(p *core.Prog, r *core.Result) {
 	//   buffered - Print(buffer) (itself, or through a helper that always prints the buffer) after h was appended,
 	//   complete - a call of a lineWriter helper with h as argument that itself delivers its parameter exactly once
 	//              on every path (checked recursively).
-	isLineCall := func(in ssa.Instruction, name string) (*ssa.Call, bool) {
-		c, ok := in.(*ssa.Call)
-		if !ok || !core.IsMethod(c, "strings", "Builder", name) || len(c.Call.Args) == 0 || !core.IsField(c.Call.Args[0], pkgRoot, "lineWriter", "line") {
-			return nil, false
-		}
-		return c, true
-	}
 	isLW := func(f *ssa.Function) bool {
 		return f != nil && f.Blocks != nil && f.Signature.Recv() != nil && strings.Contains(f.Signature.Recv().Type().String(), "lineWriter") && f.Pkg == w.Pkg
 	}
@@ -643,14 +664,7 @@ func checkLineReassembly(p *core.Prog, r *core.Result) {
 		if !ok || !isInvoke(c, "Events", "Print") {
 			return false
 		}
-		return core.DependsOn(c.Call.Args[len(c.Call.Args)-1], core.SliceOpts{}, func(v ssa.Value) bool {
-			in, ok := v.(ssa.Instruction)
-			if !ok {
-				return false
-			}
-			_, is := isLineCall(in, "String")
-			return is
-		})
+		return core.DependsOn(c.Call.Args[len(c.Call.Args)-1], core.SliceOpts{}, bufContent)
 	}
 	// emitsBuffer: helper that prints the buffer on every path
 	emitsBuffer := func(f *ssa.Function) bool {
@@ -679,14 +693,7 @@ func checkLineReassembly(p *core.Prog, r *core.Result) {
 			if !ok {
 				return false
 			}
-			lenCall := func(x ssa.Value) bool {
-				in, ok := x.(ssa.Instruction)
-				if !ok {
-					return false
-				}
-				_, is := isLineCall(in, "Len")
-				return is
-			}
+			lenCall := bufLen
 			zero := func(x ssa.Value) bool { k, ok := core.ConstInt(x); return ok && k == 0 }
 			if !(lenCall(b.X) && zero(b.Y) || lenCall(b.Y) && zero(b.X)) {
 				return false
@@ -705,10 +712,7 @@ func checkLineReassembly(p *core.Prog, r *core.Result) {
 		appended := func(before ssa.Instruction) bool {
 			ok := false
 			core.Instrs(f, func(in ssa.Instruction) {
-				if c, is := isLineCall(in, "Write"); is && len(c.Call.Args) > 1 && head(c.Call.Args[1]) && core.Dominates(c, before) {
-					ok = true
-				}
-				if c, is := isLineCall(in, "WriteString"); is && len(c.Call.Args) > 1 && core.DependsOn(c.Call.Args[1], core.SliceOpts{}, head) && core.Dominates(c, before) {
+				if a, is := bufAppend(in); is && (head(a) || core.DependsOn(a, core.SliceOpts{}, head)) && core.Dominates(in, before) {
 					ok = true
 				}
 			})
@@ -840,8 +844,8 @@ func checkLineReassembly(p *core.Prog, r *core.Result) {
 			// (d) no newline: everything is buffered
 			nf := iff.Block().Succs[1-found]
 			isWriteAll := func(in ssa.Instruction) bool {
-				c, is := isLineCall(in, "Write")
-				return is && len(c.Call.Args) > 1 && c.Call.Args[1] == ssa.Value(cur)
+				a, is := bufAppend(in)
+				return is && a == ssa.Value(cur)
 			}
 			buffersAll := true
 			reached := false
@@ -879,13 +883,6 @@ func checkLineReassembly(p *core.Prog, r *core.Result) {
 // handed to Events.Print, the buffer is reset before the method returns. Otherwise the same bytes are delivered
 // again, glued in front of the next write (the writer outlives one evaluation: a Project can run a target again).
 func checkLineBufferReset(p *core.Prog, r *core.Result) {
-	isLineOp := func(in ssa.Instruction, name string) bool {
-		c, ok := in.(ssa.CallInstruction)
-		if !ok || !core.IsMethod(c, "strings", "Builder", name) || len(c.Common().Args) == 0 {
-			return false
-		}
-		return core.IsField(c.Common().Args[0], pkgRoot, "lineWriter", "line")
-	}
 	n := 0
 	for _, fn := range p.ModuleFuncs() {
 		if fn.Pkg == nil || fn.Pkg.Pkg.Path() != pkgRoot || fn.Signature.Recv() == nil || !strings.Contains(fn.Signature.Recv().Type().String(), "lineWriter") {
@@ -897,10 +894,7 @@ func checkLineBufferReset(p *core.Prog, r *core.Result) {
 				continue
 			}
 			line := c.Common().Args[len(c.Common().Args)-1]
-			buffered := core.DependsOn(line, core.SliceOpts{}, func(v ssa.Value) bool {
-				in, ok := v.(ssa.Instruction)
-				return ok && isLineOp(in, "String")
-			})
+			buffered := core.DependsOn(line, core.SliceOpts{}, bufContent)
 			if !buffered {
 				continue
 			}
@@ -909,7 +903,7 @@ func checkLineBufferReset(p *core.Prog, r *core.Result) {
 			construct := fmt.Sprintf("%s#delivers-buffer-%d", fname(fn), k)
 			leak := false
 			for _, ret := range core.ReturnsOf(fn) {
-				if core.ReachesAvoiding(c.(ssa.Instruction), ret, func(in ssa.Instruction) bool { return isLineOp(in, "Reset") }) {
+				if core.ReachesAvoiding(c.(ssa.Instruction), ret, bufReset) {
 					leak = true
 				}
 			}
@@ -917,4 +911,115 @@ func checkLineBufferReset(p *core.Prog, r *core.Result) {
 		}
 	}
 	r.Floor("R18.4", n, 1, "deliveries of the buffered line")
+}
+
+
+// ---- the line buffer of lineWriter, whatever its representation (strings.Builder / bytes.Buffer methods, or a
+// []byte / string field grown by append or +)
+
+func isLineField(addr ssa.Value) bool { return core.IsField(addr, pkgRoot, "lineWriter", "line") }
+
+func loadsLineField(v ssa.Value) bool { return core.LoadOfField(v, pkgRoot, "lineWriter", "line") }
+
+func lineMethod(in ssa.Instruction, names ...string) (*ssa.Call, bool) {
+	c, ok := in.(*ssa.Call)
+	if !ok || c.Call.IsInvoke() || len(c.Call.Args) == 0 || !isLineField(c.Call.Args[0]) {
+		return nil, false
+	}
+	cal := core.Callee(c)
+	if cal == nil {
+		return nil, false
+	}
+	for _, n := range names {
+		if cal.Name() == n {
+			return c, true
+		}
+	}
+	return nil, false
+}
+
+// bufAppend: the instruction appends `arg` to the buffer.
+func bufAppend(in ssa.Instruction) (arg ssa.Value, ok bool) {
+	if c, is := lineMethod(in, "Write", "WriteString"); is && len(c.Call.Args) > 1 {
+		return c.Call.Args[1], true
+	}
+	if st, is := in.(*ssa.Store); is && isLineField(st.Addr) {
+		if c, isCall := st.Val.(*ssa.Call); isCall {
+			if b, isB := c.Call.Value.(*ssa.Builtin); isB && b.Name() == "append" && len(c.Call.Args) == 2 && loadsLineField(c.Call.Args[0]) {
+				return c.Call.Args[1], true
+			}
+		}
+		if bo, isBO := st.Val.(*ssa.BinOp); isBO && bo.Op == token.ADD && loadsLineField(bo.X) {
+			return bo.Y, true
+		}
+	}
+	return nil, false
+}
+
+// bufContent: v is the current contents of the buffer (as a string).
+func bufContent(v ssa.Value) bool {
+	if in, ok := v.(ssa.Instruction); ok {
+		if _, is := lineMethod(in, "String"); is {
+			return true
+		}
+	}
+	if cv, ok := v.(*ssa.Convert); ok && loadsLineField(cv.X) {
+		return true
+	}
+	if b, ok := v.Type().Underlying().(*types.Basic); ok && b.Info()&types.IsString != 0 && loadsLineField(v) {
+		return true
+	}
+	return false
+}
+
+// bufReset: the instruction empties the buffer.
+func bufReset(in ssa.Instruction) bool {
+	if _, is := lineMethod(in, "Reset"); is {
+		return true
+	}
+	if st, is := in.(*ssa.Store); is && isLineField(st.Addr) {
+		if core.IsNilConst(st.Val) {
+			return true
+		}
+		if s, ok := core.ConstString(st.Val); ok && s == "" {
+			return true
+		}
+		if sl, ok := st.Val.(*ssa.Slice); ok && loadsLineField(sl.X) && sl.Low == nil && sl.High != nil {
+			if k, ok := core.ConstInt(sl.High); ok && k == 0 {
+				return true
+			}
+		}
+	}
+	return false
+}
+
+// bufLen: v is the length of the buffer.
+func bufLen(v ssa.Value) bool {
+	if in, ok := v.(ssa.Instruction); ok {
+		if _, is := lineMethod(in, "Len"); is {
+			return true
+		}
+	}
+	if c, ok := v.(*ssa.Call); ok {
+		if b, isB := c.Call.Value.(*ssa.Builtin); isB && b.Name() == "len" && len(c.Call.Args) == 1 && loadsLineField(c.Call.Args[0]) {
+			return true
+		}
+	}
+	return false
+}
+
+// bufRetains: the instruction stores into the buffer something that is not a copy (an append to the buffer, a
+// conversion, a constant): returns the stored value.
+func bufRetains(in ssa.Instruction) (ssa.Value, bool) {
+	st, is := in.(*ssa.Store)
+	if !is || !isLineField(st.Addr) || bufReset(in) {
+		return nil, false
+	}
+	if _, ok := bufAppend(in); ok {
+		return nil, false
+	}
+	if _, isConv := st.Val.(*ssa.Convert); isConv {
+		return nil, false
+	}
+	return st.Val, true
 }
